@@ -44,6 +44,10 @@ type c06Hdr struct {
 	wellFormed bool // first byte and a terminated variable byte integer of <= 4 bytes are present
 	canonical  bool // ... and it is minimally encoded
 	hdrLen, rl int
+	// lenient is what the (up to four) length bytes present add up to, terminated or not:
+	// the most a decoder that tolerates an unterminated or over-long length can take as
+	// the declared remaining length.
+	lenient int
 }
 
 func c06ParseHdr(data []byte) (h c06Hdr) {
@@ -54,6 +58,7 @@ func c06ParseHdr(data []byte) (h c06Hdr) {
 		}
 		b := data[1+i]
 		x |= int(b&0x7f) << (7 * uint(i))
+		h.lenient = x
 		if b&0x80 == 0 {
 			h.wellFormed, h.hdrLen, h.rl = true, 2+i, x
 			h.canonical = !(i > 0 && b == 0)
@@ -109,16 +114,21 @@ func c06Decode(v int, data []byte, bufSize int, measure bool) c06Res {
 	if !measure {
 		return c06ReadOne(v, data, bufSize, false)
 	}
-	done := make(chan c06Res, 1)
-	timer := time.NewTimer(c06HangTimeout)
-	defer timer.Stop()
-	go func() { done <- c06ReadOne(v, data, bufSize, true) }()
-	select {
-	case r := <-done:
-		return r
-	case <-timer.C:
-		return c06Res{hung: true}
+	// A genuine hang is an endless loop: it also outlasts a second, longer attempt. The
+	// retry keeps a scheduling stall on a loaded machine (hundreds of MiB being zeroed for
+	// an input that declares them, see F-c06-alloc-declared-length) from being reported.
+	for _, limit := range []time.Duration{c06HangTimeout, 3 * c06HangTimeout} {
+		done := make(chan c06Res, 1)
+		timer := time.NewTimer(limit)
+		go func() { done <- c06ReadOne(v, data, bufSize, true) }()
+		select {
+		case r := <-done:
+			timer.Stop()
+			return r
+		case <-timer.C:
+		}
 	}
+	return c06Res{hung: true}
 }
 
 func c06SafePack(p packets.Packet, w *bytes.Buffer) (err error, panicked string) {
@@ -185,14 +195,20 @@ func c06Oracle12(v int, data []byte, bufSize int, c *ev.Case, region string) (c0
 		return res, ev.Violf("C06.overread", "consumed %d bytes, fixed header %d + remaining length %d on %s", res.consumed, h.hdrLen, h.rl, c06Hex(data)).With(feats...)
 	}
 	limit := uint64(c06AllocBase + c06AllocPerByte*len(data))
+	switch {
+	case h.lenient >= 16<<20:
+		c.Label("declared_ge_16MiB")
+	case h.lenient >= 1<<20:
+		c.Label("declared_ge_1MiB")
+	}
 	if res.alloc > limit {
 		// region of the known finding: the body is shorter than the declared remaining
 		// length and the growth is one buffer of the declared size
-		if h.wellFormed && h.rl > len(data)-h.hdrLen && res.alloc <= limit+uint64(h.rl) && ev.KF(c06KFAlloc) {
+		if h.lenient > len(data) && res.alloc <= limit+uint64(h.lenient) && ev.KF(c06KFAlloc) {
 			c.Excluded(c06KFAlloc)
 		} else {
 			return res, ev.Violf("C06.alloc", "TotalAlloc grew by %d bytes for %d input bytes (limit %d; declared remaining length %d) on %s",
-				res.alloc, len(data), limit, h.rl, c06Hex(data)).With(append(feats, "declared", h.rl)...)
+				res.alloc, len(data), limit, h.lenient, c06Hex(data)).With(append(feats, "declared", h.lenient)...)
 		}
 	}
 	ref, _, rerr := mw.Decode(data, mw.Version(v), mw.AnyDir)
